@@ -61,7 +61,9 @@ class Verifier:
         self.vacuity_obligations: list = []
         import os as _os
 
-        self.max_seconds = float(_os.environ.get("PYVC_PATH_SECONDS", "120"))
+        # wall-clock guard of the path enumeration (about 20 s for the largest function on an idle core); generous, so that a busy
+        # machine does not turn a complete verification into an undecided one; the per-task deadline of check.py is the outer bound
+        self.max_seconds = float(_os.environ.get("PYVC_PATH_SECONDS", "600"))
 
     # ------------------------------------------------------------------ driver
     def run(self):
